@@ -61,6 +61,12 @@ def metric_grid(C, T, tier):
   g.append(('PerDomain(SequenceTokenAccuracy)', lambda: m.PerDomainMetric(m.SequenceTokenAccuracy(), num_domains=2), 'seq',
             {'domains': 2, 'mvs': (0,), 'pp': False, 'lm': None}))
   g.append(('PerDomain(CrossEntropyLoss)', lambda: m.PerDomainMetric(m.CrossEntropyLoss(), num_domains=2), 'cls', {'domains': 2}))
+  # scores containing -inf (a masked class): the statistic of the selected domain may be +inf, the others must stay the zero statistic
+  # (cross entropy: only the target's own score is -inf, i.e. the loss is +inf by definition; a -inf score at another class is
+  #  outside the documented domain of the loss metrics -- the real code returns NaN there, see DESIGN.md)
+  g.append(('PerDomain(CrossEntropyLoss)', lambda: m.PerDomainMetric(m.CrossEntropyLoss(), num_domains=2), 'cls',
+            {'domains': 2, 'ninf_at': (1,), 'target_is': 1}))
+  g.append(('PerDomain(Accuracy)', lambda: m.PerDomainMetric(m.Accuracy(), num_domains=2), 'cls', {'domains': 2, 'ninf_at': (C - 1,)}))
   return g
 
 
